@@ -171,6 +171,10 @@ const std::vector<std::string> kFaultFiles = {
     "memory.pressure", "io.pressure", "memory.stat", "io.stat", "memory.current", "memory.swap.current",
     "memory.swap.max", "memory.low", "memory.min", "memory.high", "memory.max", "memory.high.tmp",
     "cgroup.stat", "cgroup.events", "memory.oom.group"};
+bool c10mode() {
+  const char* p = getenv("VP_PROP");
+  return p && std::string(p) == "C10";
+}
 void genFaults(Cg& c, int pct) {
   if (!P(pct)) return;
   int n = P(70) ? 1 : R(2, 4);
@@ -244,7 +248,9 @@ Json::Value gen() {
     if (P(10)) c.mem_low = kMax;
     if (P(10)) c.mem_min = kMax;
   }
-  bool withFaults = P(40);
+  // VP_PROP=C10: the same harness as a sub-campaign of C10 ("the affected statistic is reported as unavailable"):
+  // every case carries control-file faults that appear, change and heal between ticks
+  bool withFaults = c10mode() || P(40);
   if (withFaults)
     for (auto& c : w.cgs) genFaults(c, c.path.empty() ? 10 : 30);
   if (big) {
@@ -554,7 +560,7 @@ Verdict run(const Json::Value& sc) {
 
 int main(int argc, char** argv) {
   HarnessDef d;
-  d.prop = "C15";
+  d.prop = c10mode() ? "C10" : "C15";
   d.gen = gen;
   d.run = run;
   return harnessMain(argc, argv, d);
